@@ -11,7 +11,7 @@ import common
 import explore as X
 
 HEAD = """import cohdl
-from cohdl import Bit, Port, Unsigned, Null
+from cohdl import Bit, Port, Unsigned, Null, Signal
 from cohdl import std
 
 class W(cohdl.Entity):
@@ -80,6 +80,32 @@ MBOX_CORO2 = HEAD + """        mbox = std.Mailbox[Unsigned[{w}]]({args})
             second = await mbox.receive()
             self.dout <<= second
             self.got ^= True
+"""
+
+# `async with flag:` (wait for set; clear on EVERY exit of the body, also an early return)
+FLAG_ASYNC_WITH = HEAD + """        flag = std.SyncFlag({args})
+        data = Signal[Unsigned[{w}]](Null)
+
+        @std.sequential(std.Clock(self.clk))
+        def producer():
+            if self.send:
+                if flag.is_clear():
+                    data.next = self.din
+                    flag.set()
+                    self.sent ^= True
+
+        async def take():
+            async with flag:
+                if self.want:
+                    self.dout <<= data
+                    self.got ^= True
+                    return
+                self.dout <<= data
+                self.got ^= True
+
+        @std.sequential(std.Clock(self.clk))
+        async def consumer():
+            await take()
 """
 
 FLAG_TWO = HEAD + """        flag = std.SyncFlag({args})
@@ -173,6 +199,9 @@ def run(ck: common.Check, replay=None):
         if ck.tier != "quick" or (tx, rx) in ((0, 0), (1, 1)):
             designs.append({"name": f"mbox_coro_t{tx}_r{rx}", "source": MBOX_CORO.format(w=2, args=a), "entity": "W"})
             metas.append({"component": "Mailbox", "form": "coroutine consumer (receive)", "tx_delay": tx, "rx_delay": rx, "payload": True})
+    for tx, rx in ([(0, 0), (1, 1)] if ck.tier == "quick" else delays):
+        designs.append({"name": f"flag_async_with_t{tx}_r{rx}", "source": FLAG_ASYNC_WITH.format(w=2, args=delay_args(tx, rx)), "entity": "W"})
+        metas.append({"component": "SyncFlag", "form": "coroutine consumer (async with, body with a conditional return)", "tx_delay": tx, "rx_delay": rx, "payload": True})
     designs.append({"name": "flag_same", "source": FLAG_SAME.format(w=1), "entity": "W"})
     metas.append({"component": "SyncFlag", "form": "same context", "tx_delay": 0, "rx_delay": 0, "payload": False})
     res = X.compile_designs(ck, designs)
